@@ -269,6 +269,23 @@ func main() {
 		fallback("the five fmt.Fprintf formats of reg_reporter.go")
 		oFmt = []string{"%s\n", "\t%-27s :%s\n", "\t\t%20s %s\n", "\t-- %s %s\n", "\t\t%20s %s %s =%s\n"}
 	}
+	// the fmt.Fprintf formats of the period reporters, the balance reporters and print (argument 1 of fmt.Fprintf), in source order
+	fp := func(file string, n int, def []string) []string {
+		got := callArgs(parse(filepath.Join(cli, file)), "fmt.Fprintf", 1)
+		if len(got) != n {
+			fallback(fmt.Sprintf("the %d fmt.Fprintf formats of %s", n, file))
+			return def
+		}
+		return got
+	}
+	balRow := "%10.2f | %s%s\n"
+	totFmt := fp("report/total_reporter.go", 2, []string{"%12s  %12s  %12s  %s\n", "%12.2f  %12.2f  %12.2f  %s\n"})
+	qtyFmt := fp("report/quantity_reporter.go", 1, []string{"%0.2f\t%s\n"})
+	elFmt := fp("report/element_reporter.go", 1, []string{"%0.2f\t%s\n"})
+	balFmt := fp("balance/balance_reporter.go", 3, []string{balRow, balRow, balRow})
+	balCFmt := fp("balance/balance_reporter_collapsed.go", 1, []string{balRow})
+	balSFmt := fp("balance/balance_reporter_single.go", 2, []string{"%s|\n", "%10.2f | %s\n"})
+	prFmt := fp("print/print_reporter.go", 4, []string{"%s:\n", "  # %s: %s\n", "  # %s\n", "  - %s: %0.2f\n"})
 	lFmt, lW, lHead := templateFacts(str(reg, "leftAlignedTemplate", ""), "register.leftAlignedTemplate",
 		[]string{"  %s  %s", "  %s    %s", "  %s %s = %s  %s"}, []int{},
 		"------------------------------------------------------- TOTAL --")
@@ -350,6 +367,16 @@ func main() {
 	w("def regLeftShorten : List Nat := %s", natLits(lW))
 	w("/-- reg_reporter.go (the old reporter): the formats of its fmt.Fprintf calls (date, food, ingredient, totals head, total) -/")
 	w("def regOldFormats : List (List UInt8) := %s", bytesLits(oFmt))
+	w("/-- total_reporter.go: header row, figure row -/")
+	w("def totalFormats : List (List UInt8) := %s", bytesLits(totFmt))
+	w("/-- quantity_reporter.go and element_reporter.go: the row -/")
+	w("def quantityFormats : List (List UInt8) := %s", bytesLits(append(qtyFmt, elFmt...)))
+	w("/-- balance_reporter.go (three rows), balance_reporter_collapsed.go (one row) -/")
+	w("def balanceFormats : List (List UInt8) := %s", bytesLits(append(balFmt, balCFmt...)))
+	w("/-- balance_reporter_single.go: the rule, the total row -/")
+	w("def balanceSingleFormats : List (List UInt8) := %s", bytesLits(balSFmt))
+	w("/-- print_reporter.go: heading, named note, plain note, element -/")
+	w("def printFormats : List (List UInt8) := %s", bytesLits(prFmt))
 	w("def regLeftTotalsHead : List UInt8 := %s", bytesLit(lHead))
 	w("")
 	w("end Hrano.Facts")
